@@ -40,6 +40,8 @@ pub struct Wire {
     pub out: Vec<u8>,
     pub write_mode: WriteMode,
     pub write_err: bool,
+    /// fail every write call after this many successful calls
+    pub write_err_after: Option<u64>,
     pub write_waker: Option<Waker>,
     pub write_blocked: bool,
     pub pending_armed: bool,
@@ -62,6 +64,7 @@ impl Wire {
             out: Vec::new(),
             write_mode: WriteMode::All,
             write_err: false,
+            write_err_after: None,
             write_waker: None,
             write_blocked: false,
             pending_armed: true,
@@ -137,6 +140,11 @@ impl AsyncWrite for MockWrite {
         let mut w = self.0.borrow_mut();
         w.writes += 1;
         w.write_blocked = false;
+        if let Some(n) = w.write_err_after {
+            if w.writes > n {
+                w.write_err = true;
+            }
+        }
         if w.write_err {
             return Poll::Ready(Err(io::Error::new(io::ErrorKind::BrokenPipe, "mock")));
         }
